@@ -665,6 +665,9 @@ func (c *Ctx) evalWith(e ast.Expr, obj types.Object, val constant.Value) (consta
 		if c.Obj(x) == obj {
 			return val, true
 		}
+		if v, ok := evalEnv[c.Obj(x)]; ok {
+			return v, true
+		}
 	case *ast.UnaryExpr:
 		v, ok := c.evalWith(x.X, obj, val)
 		if !ok {
@@ -734,6 +737,38 @@ func (c *Ctx) evalWith(e ast.Expr, obj types.Object, val constant.Value) (consta
 		if _, isConv := c.IsConversion(x); isConv && len(x.Args) == 1 {
 			return c.evalWith(x.Args[0], obj, val)
 		}
+		// a new predicate helper (func isNillable(t Type) bool { return t >= nillableMin }, a
+		// switch over the numeric tags, or the method form): evaluate its body with the single
+		// operand bound
+		if o := c.Callee(x); o != nil && c.isNewHelper(o) {
+			if h := c.DeclOf(o); h != nil && h.Body != nil {
+				var params []types.Object
+				var args []ast.Expr
+				if h.Recv != nil && len(h.Recv.List) == 1 && len(h.Recv.List[0].Names) == 1 {
+					if sel, ok := unparen(x.Fun).(*ast.SelectorExpr); ok {
+						params = append(params, c.Info.Defs[h.Recv.List[0].Names[0]])
+						args = append(args, sel.X)
+					}
+				}
+				k := 0
+				for _, f := range h.Type.Params.List {
+					for _, nm := range f.Names {
+						if k < len(x.Args) {
+							params = append(params, c.Info.Defs[nm])
+							args = append(args, x.Args[k])
+						}
+						k++
+					}
+				}
+				if len(params) == 1 {
+					if av, ok := c.evalWith(args[0], obj, val); ok {
+						if v, returned, ok := c.evalBody(h.Body.List, params[0], av); ok && returned {
+							return v, true
+						}
+					}
+				}
+			}
+		}
 		if name == "Type.base" {
 			if sel, ok := unparen(x.Fun).(*ast.SelectorExpr); ok {
 				v, ok := c.evalWith(sel.X, obj, val)
@@ -787,6 +822,9 @@ func tabCastCase(c *Ctx, r *R, sc *switchCase, label string) {
 		}
 		return true
 	})
+	}
+	if len(sites) > 1 && castViaHelper(c, r, sc, label, sites) {
+		return
 	}
 	if len(sites) != 1 {
 		r.undecided("cast-site", c.Pos(sc.Clause), fmt.Sprintf("expected one CAST emission in the declaration case, found %d", len(sites)))
@@ -1311,7 +1349,7 @@ func castPerTarget(c *Ctx, r *R, cs *bigSwitch) {
 				s := cd.String()
 				// the declared types may have been resolved ahead of the stores into a table keyed
 				// by target: a lookup in it stands for typeFromToken(target.Tokens[0])
-				if strings.HasPrefix(s, "!") && strings.Contains(s, "slices.Contains(") && (strings.Contains(s, "map[*token]Type{}[") || strings.Contains(s, "builtin.make(type:[]Type, ")) && c.typeTableOf(sc.Clause) != "" {
+				if strings.HasPrefix(s, "!") && (strings.Contains(s, "slices.Contains(") || negatedHelperCall(c, cd)) && (strings.Contains(s, "map[*token]Type{}[") || strings.Contains(s, "builtin.make(type:[]Type, ")) && c.typeTableOf(sc.Clause) != "" {
 					established = true
 				}
 				if strings.HasPrefix(s, "!") && (strings.Contains(s, "typeFromToken(") || strings.Contains(s, ".Tokens) > 0")) {
@@ -1686,4 +1724,345 @@ func evalBCond(cd string, b int64) (val, known bool) {
 		return b == k, true
 	}
 	return b != k, true
+}
+
+// evalBody evaluates a straight-line predicate body (if / switch / return over constants and
+// one bound variable).  returned reports whether a return statement was reached.
+func (c *Ctx) evalBody(list []ast.Stmt, obj types.Object, val constant.Value) (v constant.Value, returned, ok bool) {
+	for _, st := range list {
+		switch x := st.(type) {
+		case *ast.AssignStmt:
+			// a temporary: name := expr
+			if len(x.Lhs) != 1 || len(x.Rhs) != 1 {
+				return nil, false, false
+			}
+			id, isId := x.Lhs[0].(*ast.Ident)
+			if !isId {
+				return nil, false, false
+			}
+			av, ok := c.evalWith(x.Rhs[0], obj, val)
+			if !ok {
+				return nil, false, false
+			}
+			o := c.Info.Defs[id]
+			if o == nil {
+				o = c.Info.Uses[id]
+			}
+			if o == nil || o == obj {
+				return nil, false, false
+			}
+			evalEnv[o] = av
+		case *ast.ReturnStmt:
+			if len(x.Results) != 1 {
+				return nil, false, false
+			}
+			v, ok := c.evalWith(x.Results[0], obj, val)
+			return v, true, ok
+		case *ast.IfStmt:
+			if x.Init != nil {
+				return nil, false, false
+			}
+			cv, ok := c.evalWith(x.Cond, obj, val)
+			if !ok || cv.Kind() != constant.Bool {
+				return nil, false, false
+			}
+			var branch []ast.Stmt
+			if constant.BoolVal(cv) {
+				branch = x.Body.List
+			} else if x.Else != nil {
+				switch e := x.Else.(type) {
+				case *ast.BlockStmt:
+					branch = e.List
+				case *ast.IfStmt:
+					branch = []ast.Stmt{e}
+				}
+			}
+			if v, ret, ok := c.evalBody(branch, obj, val); !ok {
+				return nil, false, false
+			} else if ret {
+				return v, true, true
+			}
+		case *ast.SwitchStmt:
+			if x.Init != nil {
+				return nil, false, false
+			}
+			var tag constant.Value
+			if x.Tag != nil {
+				t, ok := c.evalWith(x.Tag, obj, val)
+				if !ok {
+					return nil, false, false
+				}
+				tag = t
+			}
+			var chosen, def *ast.CaseClause
+			for _, cc := range x.Body.List {
+				cl := cc.(*ast.CaseClause)
+				if cl.List == nil {
+					def = cl
+					continue
+				}
+				for _, e := range cl.List {
+					ev, ok := c.evalWith(e, obj, val)
+					if !ok {
+						return nil, false, false
+					}
+					if tag != nil && constant.Compare(ev, token.EQL, tag) || tag == nil && ev.Kind() == constant.Bool && constant.BoolVal(ev) {
+						chosen = cl
+					}
+				}
+				if chosen != nil {
+					break
+				}
+			}
+			if chosen == nil {
+				chosen = def
+			}
+			if chosen != nil {
+				for _, b := range chosen.Body {
+					if _, isFall := b.(*ast.BranchStmt); isFall {
+						return nil, false, false
+					}
+				}
+				if v, ret, ok := c.evalBody(chosen.Body, obj, val); !ok {
+					return nil, false, false
+				} else if ret {
+					return v, true, true
+				}
+			}
+		default:
+			return nil, false, false
+		}
+	}
+	return nil, false, true
+}
+
+// negatedHelperCall: the condition is !h(..) with h a new predicate helper of the package.
+func negatedHelperCall(c *Ctx, cd *T) bool {
+	if cd.Op != "un" || len(cd.Args) != 1 || cd.Args[0].Op != "call" {
+		return false
+	}
+	fd := c.Func(cd.Args[0].Name)
+	if fd == nil {
+		return false
+	}
+	return c.isNewHelper(c.Info.Defs[fd.Name])
+}
+
+// evalEnv: additional constant bindings consulted by evalWith (parameters of a helper that
+// are bound to constant arguments at the call under analysis).
+var evalEnv = map[types.Object]constant.Value{}
+
+// evalBodyRet is evalBody for helpers that return a non-constant: it yields the expression
+// of the return statement that is reached.
+func (c *Ctx) evalBodyRet(list []ast.Stmt, obj types.Object, val constant.Value) (ret ast.Expr, returned, ok bool) {
+	for _, st := range list {
+		switch x := st.(type) {
+		case *ast.ReturnStmt:
+			if len(x.Results) != 1 {
+				return nil, false, false
+			}
+			return x.Results[0], true, true
+		case *ast.IfStmt:
+			if x.Init != nil {
+				return nil, false, false
+			}
+			cv, ok := c.evalWith(x.Cond, obj, val)
+			if !ok || cv.Kind() != constant.Bool {
+				return nil, false, false
+			}
+			var branch []ast.Stmt
+			if constant.BoolVal(cv) {
+				branch = x.Body.List
+			} else if x.Else != nil {
+				switch e := x.Else.(type) {
+				case *ast.BlockStmt:
+					branch = e.List
+				case *ast.IfStmt:
+					branch = []ast.Stmt{e}
+				}
+			}
+			if v, ret, ok := c.evalBodyRet(branch, obj, val); !ok {
+				return nil, false, false
+			} else if ret {
+				return v, true, true
+			}
+		case *ast.SwitchStmt:
+			if x.Init != nil {
+				return nil, false, false
+			}
+			var tag constant.Value
+			if x.Tag != nil {
+				t, ok := c.evalWith(x.Tag, obj, val)
+				if !ok {
+					return nil, false, false
+				}
+				tag = t
+			}
+			var chosen, def *ast.CaseClause
+			for _, cc := range x.Body.List {
+				cl := cc.(*ast.CaseClause)
+				if cl.List == nil {
+					def = cl
+					continue
+				}
+				for _, e := range cl.List {
+					ev, ok := c.evalWith(e, obj, val)
+					if !ok {
+						return nil, false, false
+					}
+					if tag != nil && constant.Compare(ev, token.EQL, tag) || tag == nil && ev.Kind() == constant.Bool && constant.BoolVal(ev) {
+						chosen = cl
+					}
+				}
+				if chosen != nil {
+					break
+				}
+			}
+			if chosen == nil {
+				chosen = def
+			}
+			if chosen != nil {
+				if v, ret, ok := c.evalBodyRet(chosen.Body, obj, val); !ok {
+					return nil, false, false
+				} else if ret {
+					return v, true, true
+				}
+			}
+		default:
+			return nil, false, false
+		}
+	}
+	return nil, false, true
+}
+
+// castViaHelper: the declaration case emits its CAST through one new helper that has
+// several emission sites (castTo(typ, nillable)).  The helper is evaluated as a function of
+// the declared type, with its other parameters bound to the constants of the call: for each
+// numeric tag (and, for var, the nillable type values) the return that is reached must
+// contain the CAST.
+func castViaHelper(c *Ctx, r *R, sc *switchCase, label string, sites []*ast.CompositeLit) bool {
+	h := c.EnclosingFunc(sites[0])
+	for _, s := range sites {
+		if c.EnclosingFunc(s) != h {
+			return false
+		}
+	}
+	if h == nil || !c.isNewHelper(c.Info.Defs[h.Name]) {
+		return false
+	}
+	var call *ast.CallExpr
+	ast.Inspect(sc.Clause, func(n ast.Node) bool {
+		if x, ok := n.(*ast.CallExpr); ok && c.Callee(x) == c.Info.Defs[h.Name] {
+			call = x
+		}
+		return true
+	})
+	if call == nil {
+		return false
+	}
+	var typParam types.Object
+	env := map[types.Object]constant.Value{}
+	k := 0
+	for _, f := range h.Type.Params.List {
+		for _, nm := range f.Names {
+			o := c.Info.Defs[nm]
+			if k < len(call.Args) {
+				if isNamed(o.Type(), "Type") {
+					typParam = o
+				} else if v, ok := c.ConstOf(call.Args[k]); ok {
+					env[o] = v
+				} else {
+					return false
+				}
+			}
+			k++
+		}
+	}
+	if typParam == nil {
+		return false
+	}
+	old := evalEnv
+	evalEnv = env
+	defer func() { evalEnv = old }()
+	emits := func(v int64) (bool, bool) {
+		ret, returned, ok := c.evalBodyRet(h.Body.List, typParam, constant.MakeInt64(v))
+		if !ok || !returned {
+			return false, false
+		}
+		has := false
+		ast.Inspect(ret, func(n ast.Node) bool {
+			if kv, ok := n.(*ast.KeyValueExpr); ok && types.ExprString(kv.Key) == "Code" && c.codeConstName(kv.Value) == "codeCast" {
+				has = true
+			}
+			return true
+		})
+		return has, true
+	}
+	tags := c.typeTags()
+	for _, tag := range numericTags {
+		key := "cast " + tag
+		if label != "var" {
+			key = "cast " + label + " " + tag
+		}
+		has, ok := emits(tags[tag])
+		if !ok {
+			r.undecided(key, c.Pos(h), "cannot evaluate "+h.Name.Name+" for "+tag)
+			continue
+		}
+		r.check(has, key, c.Pos(h), "CAST emitted for declared type "+goTypeOfTag[tag],
+			fmt.Sprintf("`%s x %s = <untyped or other numeric>` emits no CAST: %s returns none for %s, so the variable keeps the initialiser's type (int32)", label, goTypeOfTag[tag], h.Name.Name, tag))
+	}
+	if label == "var" {
+		if o, ok := c.Pkg.Types.Scope().Lookup("nillableMin").(*types.Const); ok {
+			base, _ := constant.Int64Val(constant.ToInt(o.Val()))
+			good := true
+			for _, d := range []int64{0, 1, 1000} {
+				has, ok := emits(base + d)
+				if !ok {
+					r.undecided("cast nillable", c.Pos(h), "cannot evaluate "+h.Name.Name+" for a nillable type")
+					return true
+				}
+				good = good && has
+			}
+			r.check(good, "cast nillable", c.Pos(h), "CAST emitted for declared slice / map / func types",
+				"`var s []T = nil` emits no CAST: "+h.Name.Name+" returns none for slice / map / func types, so the initialiser nil stays untyped — `var s []float64 = nil; s = append(s, 1)` holds an int")
+		} else {
+			r.undecided("cast nillable", c.Pos(h), "constant nillableMin not found")
+		}
+	}
+	return true
+}
+
+// evalFuncConst evaluates a small pure function of integer-like parameters on constants.
+func (c *Ctx) evalFuncConst(fd *ast.FuncDecl, args []constant.Value) (constant.Value, bool) {
+	old := evalEnv
+	evalEnv = map[types.Object]constant.Value{}
+	defer func() { evalEnv = old }()
+	k := 0
+	if fd.Recv != nil {
+		for _, f := range fd.Recv.List {
+			for _, nm := range f.Names {
+				if k < len(args) {
+					evalEnv[c.Info.Defs[nm]] = args[k]
+				}
+				k++
+			}
+		}
+	}
+	for _, f := range fd.Type.Params.List {
+		for _, nm := range f.Names {
+			if k < len(args) {
+				evalEnv[c.Info.Defs[nm]] = args[k]
+			}
+			k++
+		}
+	}
+	if k != len(args) {
+		return nil, false
+	}
+	v, returned, ok := c.evalBody(fd.Body.List, nil, nil)
+	if !ok || !returned {
+		return nil, false
+	}
+	return v, true
 }
